@@ -279,5 +279,12 @@ def check(run, prog):
         cfo = out.attrs.get("_center_freq")
         ck.same("R3", gi.where, "z[:, 1:4] with a centre frequency held as float32", "the new centre frequency is not cast to the original's (narrower) dtype",
                 not narrowed, found=str([(t[1], repr(t[2])) for t in narrowed])[:200] or None, nontrivial=True)
+    # NT: channel bounds may be NumPy integers (results of argmax / searchsorted arithmetic), of either sign
+    for cls_name in ("RadioSignal", "BasebandSignal"):
+        for label, mkidx in (("z[:, -3:]", lambda mk: SliceV(mk(-3), NONE, NONE)), ("z[:, 1:-1]", lambda mk: SliceV(mk(1), mk(-1), NONE)),
+                             ("z[:, :-2]", lambda mk: SliceV(NONE, mk(-2), NONE)), ("z[:, 2:5]", lambda mk: SliceV(mk(2), mk(5), NONE))):
+            zc = make_signal(prog, cls_name, n=nsample, nchan=6, freq_align="bottom")
+            ck.number_types("NT", gi.where, f"{cls_name}(nchan=6): {label}",
+                            lambda ev, mk, zc=zc, mkidx=mkidx: ev.getitem(zc, TupleV([SliceV(NONE, NONE, NONE), mkidx(mk)]), FR()))
     run.extra["decided_by"] = ck.how
     run.extra["channel_ranges_examined"] = n_slices
